@@ -165,7 +165,11 @@ func collectCommandMetrics(cb *circuit.Circuit) *streamCmdMetric {
 		// We still show the circuit, but everything shows up as zero
 		builtInRollingFallbackMetricCollector = &rolling.FallbackStats{}
 	}
-	now := cb.Config().General.TimeKeeper.Now()
+	// The stored config may come from a SetConfigThreadSafe call that left the time keeper unset
+	now := time.Now()
+	if timeNow := cb.Config().General.TimeKeeper.Now; timeNow != nil {
+		now = timeNow()
+	}
 	snap := builtInRollingCmdMetricCollector.Latencies.SnapshotAt(now)
 	circuitConfig := cb.Config()
 	return attachHystrixProperties(cb, &streamCmdMetric{
